@@ -85,6 +85,16 @@ def rule_enumeration(ctx, res):
     okb = bool(bs.complete_paths())
     for p in bs.complete_paths():
         r = p.ret
+        if agg_variant(r) == 'None':
+            continue          # no bucket at that index
+        if agg_variant(r) == 'Some':
+            # (normal form: `buckets.get(index).map(|b| ..)` is read as the match it stands for)
+            v = strip_transparent(r[2].get('0'))
+            g = find_calls(v, '::get')
+            if not (v[0] == 'call' and v[1] == 'table::good_node_filter' and find_calls(v, 'Bucket::iter') and g and is_param(strip_transparent(g[0][2][1]), 'index')
+                    and field_chain(strip_transparent(find_calls(v, 'Bucket::iter')[0][2][0]))[-1:] == ['0']):
+                okb = False
+            continue
         if not (r[0] == 'call' and r[1].endswith('Option::<T>::map') and find_calls(r, '::get') and is_param(strip_transparent(find_calls(r, '::get')[0][2][1]), 'index')):
             okb = False
             continue
@@ -165,6 +175,9 @@ def rule_partition(ctx, res):
     for p in bs.complete_paths():
         f = [full_lit(literal(c)) for c in p.conds if full_lit(literal(c)) is not None]
         g = find_calls(p.ret, '::get')
+        if not g:
+            # the lookup itself is the condition of the match the `map` stands for
+            g = [x for c in p.conds for x in find_calls(literal(c)[1], '::get') if literal(c)[0] == 'variant']
         src = g[0][2][0] if g else None
         while isinstance(src, tuple) and src[0] in ('ref', 'deref'):
             src = src[1]
